@@ -1,6 +1,6 @@
 from verif import Ob
-META = {'bounds': 'matcher: boundary "b", literal framing per shape (CRLF / LF-only line ends, one or two parts, preamble / epilogue, data ending in its own CRLF), 1 (quick) or 2 (thorough) symbolic bytes of part data / preamble / header line (all 256 values, LF "--b" look-alikes excluded), one byte per call or 2-3 byte chunks, every chunk an exact-size heap object; part layer: literal Content-Disposition (text part, escaped quote / backslash inside and at the end of the name, file part, Content-Type line), 2 symbolic data bytes, header line whole or cut at 5 positions, data whole or cut; parameters: 3 parts of symbolic type; boundary extraction: literal Content-Type',
-        'outside': 'symbolic names / file names / boundary bytes; chunks of more than 3 bytes into a non-initial matcher state (no verdict); htp_mpartp_finalize itself; more than two parts; file extraction to disk; folded or unknown part headers; real bstr_builder / htp_list / htp_table (flat models here, the real ones are C17)',
+META = {'bounds': 'matcher: boundary "b", literal framing per shape (registered: one part with CRLF line ends, LF-only line ends, data ending in its own CRLF, preamble + epilogue in 2-byte chunks), 1 (quick) or 2 (thorough) symbolic bytes of part data (all 256 values, LF "--b" look-alikes excluded), one byte per call or 2-3 byte chunks, every chunk an exact-size heap object; part layer: literal Content-Disposition (text part, escaped quote / backslash inside and at the end of the name, file part, Content-Type line), 2 symbolic data bytes, header line whole or cut at 5 positions, data whole or cut; parameters: 3 parts of symbolic type; boundary extraction: literal Content-Type',
+        'outside': 'two-part / preamble-as-data / header-byte framings one byte per call (no verdict under the caps tried, not registered); symbolic names / file names / boundary bytes; chunks of more than 3 bytes into a non-initial matcher state (no verdict); htp_mpartp_finalize itself; more than two parts; file extraction to disk; folded or unknown part headers; real bstr_builder / htp_list / htp_table (flat models here, the real ones are C17)',
         'assumptions': ['htp_log stubbed', 'fixed-capacity bstr_alloc (string bytes in a separate byte object for the part layer)', 'pieces_model.c: piece-preserving flat model of bstr_builder + htp_list', 'table_model.c for part headers', 'byte-loop memcpy model', 'recording handlers reproduce the part layer\'s line/data mode rule in the matcher obligations'],
         'trusted_base': ['harness/mp/match.c (recorders, construction log)', 'harness/mp/part.c', 'harness/mp/param.c', 'harness/mp/findb.c', 'harness/common/pieces_model.c']}
 UM = ['bstr.c', 'htp_util.c', 'htp_utf8_decoder.c']
